@@ -125,16 +125,17 @@ Proof. vm_compute. split; reflexivity. Qed.
 (* ================================================================ PointOnSurface *)
 (* every statement holds for EVERY centroid oracle cen (Centroid() is an argument of the model) *)
 
-(* empty iff the input is empty (cen defined on non-empty geometries; every non-empty MultiPolygon
-   leaf has a member with a regular row: pos_dom) *)
+(* empty iff the input is empty, for every well-formed geometry of every type (cen defined on
+   non-empty geometries). For MultiPolygons this needs fix F151 (before it, a MultiPolygon whose
+   members all take the fall-back gave the empty Point). *)
 Theorem pos_empty_iff : forall (cen : geom -> option pt),
   (forall x, is_empty x = false -> cen x <> None) ->
-  forall g : geom, geom_wf g = true -> pos_dom g = true -> point_empty (pos cen g) = is_empty g.
+  forall g : geom, geom_wf g = true -> point_empty (pos cen g) = is_empty g.
 Proof. exact pos_empty_iff_lemma. Qed.
 Print Assumptions pos_empty_iff.
 Example pos_empty_iff_ex :
-  geom_wf (GMPoly XY [ex_holed; ex_u]) = true /\ pos_dom (GMPoly XY [ex_holed; ex_u]) = true /\
-  pos_dom ex_coll = true /\ is_empty ex_coll = false.
+  geom_wf (GMPoly XY [ex_holed; ex_u]) = true /\ geom_wf ex_coll = true /\ is_empty ex_coll = false /\
+  point_empty (pos (fun _ => Some (0, 0)) ex_coll) = false.
 Proof. vm_compute. repeat split. Qed.
 
 (* lineal: the point is on the line string (it is one of its control points) *)
@@ -184,6 +185,16 @@ Example pos_row_ex :
   option_map r_xs (poly_row ex_u) = Some [0; 2 # 1; 4 # 1; 6 # 1].
 Proof. vm_compute. repeat split. Qed.
 
+(* the bisector is horizontal at that ordinate; the intercepts are the abscissae where ring edges
+   meet it, sorted (not de-duplicated: fix F150), strictly increasing when they are distinct *)
+Theorem pos_row_shape : forall (y : polyT Q) (ri : row_info),
+  poly_row y = Some ri ->
+  snd (fst (r_bis ri)) = r_y ri /\ snd (snd (r_bis ri)) = r_y ri /\
+  r_xs ri = isort (raw_intercepts (r_bis ri) (poly_rings y)) /\
+  (nodupq (raw_intercepts (r_bis ri) (poly_rings y)) = true -> ssorted (r_xs ri)).
+Proof. exact row_shape_lemma. Qed.
+Print Assumptions pos_row_shape.
+
 (* areal, step 2: the returned point is STRICTLY INTERIOR. Parity argument on the one horizontal
    line: no control point on the row => every ring edge either misses the row or crosses it
    properly at one point; the crossings to the right of the midpoint of the (2k+1)-th .. (2k+2)-th
@@ -217,9 +228,9 @@ Example pos_areal_interior_ex2 :
   nesting_atb ex_holed (4 # 2, 12 # 4) = true /\ locate (GPoly ex_holed) (4 # 2, 12 # 4) = Interior.
 Proof. vm_compute. repeat split. Qed.
 
-(* MultiPolygon: the point is the point of a member with a regular row, strictly interior *)
+(* MultiPolygon: the point is the point of a member, strictly interior *)
 Theorem pos_multipolygon_interior : forall ct (ys : list (polyT Q)) (p : pt),
-  (forall y, In y ys -> row_regular y = true -> row_hyps y = true /\ valid_nesting y) ->
+  (forall y, In y ys -> poly_empty y = false -> row_hyps y = true /\ valid_nesting y) ->
   point_xy (mpoly_pos ys) = Some p ->
   locate (GMPoly ct ys) p = Interior.
 Proof. exact pos_mpoly_interior_lemma. Qed.
